@@ -43,12 +43,26 @@ def sub_matches (s : Sub) (m : MsgId) : Bool :=
 def typeName (t : Nat) : Str :=
   match XV.Gen.msgTypeNames.lookup t with
   | some n => n.toList
-  | none => (toString t).toList
+  | none => Nat.toDigits 10 t
 
-/-- `MessageKey` before hashing (the double SHA-256 is assumed injective): the five fields are
-written one after the other without separators -/
+/-- the value of one key field, named as the extractor describes the expression written into the key -/
+def keyField (m : MsgId) (desc : String) : Str :=
+  if desc = "String,Type" then typeName m.typ
+  else if desc = "Bcname" then m.bc
+  else if desc = "From" then m.sender
+  else if desc = "Logid" then m.logid
+  else if desc = "%d,DataCheckSum" then Nat.toDigits 10 m.sum
+  else []
+
+/-- how a field is written: `fmt.Sprintf("%d:", len(field))` then the field (or the bare field if the
+source does not length-prefix; which of the two is regenerated from dispatcher.go) -/
+def encField (prefixed : Bool) (f : Str) : Str :=
+  if prefixed then Nat.toDigits 10 f.length ++ ':' :: f else f
+
+/-- `MessageKey` before hashing (the double SHA-256 is assumed injective): the fields listed in the
+source, in order -/
 def msgKey (m : MsgId) : Str :=
-  typeName m.typ ++ m.bc ++ m.sender ++ m.logid ++ (toString m.sum).toList
+  XV.Gen.messageKeyFields.flatMap (fun d => encField XV.Gen.messageKeyLengthPrefixed (keyField m d))
 
 structure State where
   subs : List Sub                 -- registered subscribers (all inner maps of `mc` together)
